@@ -60,7 +60,8 @@ def _direct(ctx: Ctx, frame, terms, efr, na, cd, output, kind, det, tag=""):
         ctx.fail(f"the output has {det['nrows']} rows, expected the {len(kept)} rows at positions {kept}", rp)
         return
     mm = det["mm"]
-    if output == "pandas":
+    if output == "pandas" and not str(det.get("route", "")).startswith("narwhals"):
+        # (the narwhals materializer is index-agnostic: labels are a notion of the pandas route, as the property says)
         idx = list(det["df"].index)
         if list(mm.index) != [idx[i] for i in kept]:
             ctx.fail(f"index labels of the output are {list(mm.index)}, expected {[idx[i] for i in kept]}", rp)
